@@ -224,8 +224,8 @@ def without_schedule():
 
 def gen_instance(rng):
     """Random candidate graph in the property's terms (refmodel instance)."""
-    mode = rng.choices(["random", "interval", "notie", "dense", "big", "largevals", "chain"],
-                       weights=[4, 3, 4, 1, 2, 2, 2])[0]
+    mode = rng.choices(["random", "interval", "notie", "dense", "big", "largevals", "chain", "star"],
+                       weights=[4, 3, 4, 1, 2, 2, 2, 1])[0]
     ns, nr = rng.randint(1, 6), rng.randint(1, 6)
     span = 60 if mode == "notie" else rng.choice([12, 25, 40])
     maxdur = 30 if mode == "notie" else rng.choice([3, 6, 10])
@@ -239,6 +239,8 @@ def gen_instance(rng):
         maxdur = rng.choice([300, 3000, 40000, 70000])
     if mode == "chain":
         return gen_chain_instance(rng)
+    if mode == "star":
+        return gen_star_instance(rng)
     s_starts = rng.sample(range(span), ns)
     r_starts = rng.sample(range(span), nr)
     storms = {s: (s, rng.randint(1, maxdur)) for s in s_starts}
@@ -305,6 +307,29 @@ def gen_chain_instance(rng):
     used_r = {r for _, r in edges}
     inst["rises"] = {r: v for r, v in rises.items() if r in used_r}
     return inst
+
+
+def gen_star_instance(rng):
+    """One long storm with a dozen or more candidate rises (a long wet spell over
+    many short rises), plus a few ordinary storms competing for some of them:
+    long candidate lists, which small random graphs never contain."""
+    n_rises = rng.randint(11, 24)
+    span = rng.choice([200, 2000, 100000])
+    r_starts = sorted(rng.sample(range(10, span), n_rises))
+    rises = {r: (r, rng.randint(1, 12)) for r in r_starts}
+    hub = rng.randrange(0, span)
+    while hub in rises:
+        hub += 1
+    storms = {hub: (hub, rng.randint(1, 60))}
+    edges = {(hub, r) for r in r_starts}
+    for _ in range(rng.randint(0, 4)):
+        s0 = rng.randrange(0, span)
+        if s0 in storms:
+            continue
+        storms[s0] = (s0, rng.randint(1, 12))
+        for r in rng.sample(r_starts, rng.randint(1, 3)):
+            edges.add((s0, r))
+    return {"storms": storms, "rises": rises, "edges": edges}
 
 
 def inst_to_json(inst):
@@ -1115,6 +1140,7 @@ def gen_long_series(rng):
     placed all along it -- index arithmetic and dtypes at scale."""
     n = rng.choice([40000, 70000])
     s_thr, jd = 4.0, 1.0
+    spells = rng.randint(1, 3)
     rain = [0.0] * n
     inc = [-0.01] * (n - 1)
     pos = rng.randint(5, 50)
@@ -1133,6 +1159,19 @@ def gen_long_series(rng):
             inc[q] = round(jd * 1.5, 3)
         events += 1
         pos += max(length, rlen) + shift + rng.randint(40, 160)
+    # a few long wet spells, each over a dozen or more separate short rises
+    for _ in range(spells):
+        start = rng.randrange(1000, n - 2000)
+        length = rng.randint(60, 140)
+        for i in range(start, start + length):
+            rain[i] = round(s_thr * rng.uniform(1.1, 2.0), 3)
+        i = start + rng.randint(0, 2)
+        while i < start + length - 2:
+            rl = rng.randint(1, 3)
+            for q in range(i, min(i + rl, start + length - 1)):
+                inc[q] = round(jd * rng.uniform(1.1, 3.0), 3)
+            inc[min(i + rl, n - 2)] = -0.01
+            i += rl + rng.randint(1, 3)
     head = [-200.0]
     for d in inc:
         head.append(round(head[-1] + d, 3))
